@@ -731,10 +731,22 @@ func init() {
 		for _, k := range cs.HookKeys {
 			keys[k[0]+"#"+k[1]] = true
 		}
+		failing := 0
 		for i := range cs.Behaviours {
 			fmt.Printf("BEGIN %d\n", i)
 			os.Stdout.Sync()
+			if failing >= 3 {
+				// three behaviours with a wrong or missing answer are evidence enough; every further one would cost its timeouts again
+				emit(Result{ID: fmt.Sprintf("behaviour%d", i), OK: true, Kind: "srv-replay", Observed: []mismatch{}, Trivial: true, Detail: "not replayed: three earlier behaviours of this process already failed"})
+				continue
+			}
 			mm, ev := replayBehaviour(w, &cs.Behaviours[i], keys)
+			for _, m := range mm {
+				if m.Kind != "waiting" && m.Kind != "listener" {
+					failing++
+					break
+				}
+			}
 			r := Result{ID: fmt.Sprintf("behaviour%d", i), OK: len(mm) == 0, Kind: "srv-replay", Observed: mm}
 			if len(mm) > 0 {
 				r.Case = map[string]interface{}{"behaviour": cs.Behaviours[i], "events": ev}
